@@ -18,4 +18,31 @@ def kernels(tier):
 
 
 def harness(kernel, shape):
+    if kernel == "eom_drift":
+        from checks import c15
+
+        return l1.filtered(c15.h_drift(shape), PREFIXES)
     return l1.filtered(l1.step_harness(shape), PREFIXES)
+
+
+_k10 = kernels
+
+
+def kernels(tier):  # noqa: F811
+    from checks import c15
+
+    return _k10(tier) + [("eom_drift", sh) for (k, sh) in c15.kernels(tier) if k == "drift"]
+
+
+def setup():  # noqa: F811
+    l1.setup()
+    from checks import l2
+
+    l2.setup()
+
+
+def setup_concrete():  # noqa: F811
+    l1.setup_concrete()
+    from checks import l2
+
+    l2.setup_concrete()
